@@ -275,6 +275,7 @@ def run(ctx: Ctx, rep: Report) -> None:
     rep.adopt_rules(ctx.sub_run("c05", rep), "C06-R8", ["C05-R4"])
     # the pythonic view of a value is total: every tick count (0 included) becomes a timedelta
     rep.adopt_rules(ctx.sub_run("c17", rep), "C06-R5", ["C17-R2"])
+    rep.adopt_rules(ctx.sub_run("c15", rep), "C06-R5", ["C15-R1"], containing="from_raw")  # the pythonic binding is the pythonize() of what was decoded
 
     # ------------------------------------------------------------ R4
     integer_dr = ctx.u.cls("x690.types:Integer").methods.get("decode_raw")
